@@ -5,7 +5,8 @@
    in known_findings.json); the reader is Spec/WireRead.v (written from the
    RFCs, not from the Rust parser). *)
 From Coq Require Import List NArith Bool.
-From RB Require Import Base.Val Model.Caps Model.WireEnc Spec.WireRead Spec.WireEncSpec Proofs.WireEnc.
+From RB Require Import Base.Val Model.Caps Model.WireEnc Spec.WireRead Spec.WireEncSpec Spec.WireReadFam Spec.WireFamSpec
+     Proofs.WireEnc Proofs.WireEncFam.
 Import ListNotations.
 Open Scope N_scope.
 
@@ -282,3 +283,49 @@ Check decode_encode_routes_labeled :
       concat chunks = es /\
       Forall2 (reach_frame_labeled_ok c f vpn nh ws (es <> [])) frames chunks.
 Print Assumptions decode_encode_routes_labeled.
+
+(* (14) Flowspec (IPv4 / IPv6, plain / VPN), Route Target Constraint, EVPN route types 1-5 and
+   SR Policy, with the NLRI VALUE universally quantified (rule components and operator lists,
+   route targets, RD / ESI / tags / MAC / IP / labels, ...): the frames of a Reach split the
+   entries into consecutive chunks and from every frame the RFC reader of the family recovers the
+   attributes, the next hop and exactly the entries of the chunk -- the value itself (a Flowspec
+   prefix component keeps its significant octets).  This covers the length prefix rule of RFC 8955
+   4.1 (one octet below 240, two octets 0xfnnn from 240 to 4095) and the operator value widths. *)
+Theorem decode_encode_routes_structured :
+  forall (p : profile) (c : codec) (f : N) (k : skind) (nh : option (list N)) (attrs : list attr)
+         (es : list pnlri) (frames : list (list N)),
+    encode_to p c (MReach f nh attrs es) = Ok frames ->
+    Forall attr_wf attrs -> code_not 3 attrs -> code_not 14 attrs -> fam_ok f ->
+    match nh with Some b => blen b < 248 | None => True end ->
+    Forall (structured k) es ->
+    exists ws chunks,
+      wire_attrs (two_byte c) attrs = Ok ws /\
+      concat chunks = es /\
+      Forall2 (reach_frame_struct_ok c f k nh ws (es <> [])) frames chunks.
+Proof. exact C04_decode_encode_routes_structured. Qed.
+Check decode_encode_routes_structured :
+  forall (p : profile) (c : codec) (f : N) (k : skind) (nh : option (list N)) (attrs : list attr)
+         (es : list pnlri) (frames : list (list N)),
+    encode_to p c (MReach f nh attrs es) = Ok frames ->
+    Forall attr_wf attrs -> code_not 3 attrs -> code_not 14 attrs -> fam_ok f ->
+    match nh with Some b => blen b < 248 | None => True end ->
+    Forall (structured k) es ->
+    exists ws chunks,
+      wire_attrs (two_byte c) attrs = Ok ws /\
+      concat chunks = es /\
+      Forall2 (reach_frame_struct_ok c f k nh ws (es <> [])) frames chunks.
+Print Assumptions decode_encode_routes_structured.
+
+(* (15) ... and their withdrawals. *)
+Theorem split_preserves_multiset_structured :
+  forall (p : profile) (c : codec) (f : N) (k : skind) (es : list pnlri) (frames : list (list N)),
+    encode_to p c (MUnreach f es) = Ok frames ->
+    fam_ok f -> Forall (structured k) es ->
+    exists chunks, concat chunks = es /\ Forall2 (unreach_frame_struct_ok c f k) frames chunks.
+Proof. exact C04_split_preserves_multiset_structured. Qed.
+Check split_preserves_multiset_structured :
+  forall (p : profile) (c : codec) (f : N) (k : skind) (es : list pnlri) (frames : list (list N)),
+    encode_to p c (MUnreach f es) = Ok frames ->
+    fam_ok f -> Forall (structured k) es ->
+    exists chunks, concat chunks = es /\ Forall2 (unreach_frame_struct_ok c f k) frames chunks.
+Print Assumptions split_preserves_multiset_structured.
